@@ -110,7 +110,19 @@ impl WorldA {
             let n = self.nchan(i, d);
             if n > 0 {
                 let tiny = if rng.chance(1, 4) { 427 } else { 0 };
-                return Op::new(K_SUBMITBURST, i as u64, d as u64, rng.below(n as u64), tiny + rng.below(61 * 7));
+                let ch = rng.below(n as u64);
+                let c = &self.conns[i].st[d][ch as usize].cfg;
+                if c.kind != UNREL && c.max_mem <= 5000 && rng.chance(1, 10) {
+                    return Op::new(K_SUBMITBURST, i as u64, d as u64, ch, 854 + rng.below(61));
+                }
+                return Op::new(K_SUBMITBURST, i as u64, d as u64, ch, tiny + rng.below(61 * 7));
+            }
+        }
+        if matches!(self.fam, Fam::Lossy | Fam::Budget) && self.cfg.get("overflow") == 0 && rng.chance(1, 1000) {
+            let n = self.nchan(i, d);
+            let roomy: Vec<usize> = (0..n).filter(|&k| self.conns[i].st[d][k].cfg.max_mem >= 800_000).collect();
+            if !roomy.is_empty() {
+                return Op::new(K_SUBMITHUGE, i as u64, d as u64, *rng.pick(&roomy) as u64, rng.below(460_000));
             }
         }
         if matches!(self.fam, Fam::Api) && self.cfg.get("evlazy") == 1 && rng.chance(1, 60) {
